@@ -55,6 +55,15 @@ static int ndeliv[3];	/* messages delivered to endpoint e */
 static unsigned char *stream[3];	/* byte stream accepted from endpoint e */
 static long stream_len[3], stream_cap[3], stream_rd[3];	/* stream_rd[e]: bytes of e's peer stream delivered to e */
 static long ntok[3];	/* send calls made by e (token for content) */
+static long ref_tok[3], ref_len[3];	/* token and length of the last refused stream send */
+/* accepted stream sends, with the refused send (if any) that was pending when they were accepted:
+   a TLS library may have captured the refused call's bytes and transmit them in place of the
+   first bytes of the accepted call */
+#define MAXCALLS 4096
+static struct acall { long start, len, ptok, plen; } acalls[3][MAXCALLS];
+static int nacalls[3];
+static long cap_tok[3], cap_len[3];	/* the first send refused since the last accepted one (later refusals do not replace a captured record) */
+static int unchk[3];	/* content of the stream delivered to e is no longer judged (after a classified mismatch) */
 
 static unsigned char sbuf[MAXMSG + 16], rbufg[MAXMSG + 64];
 
@@ -307,14 +316,14 @@ static void emit_obs(void)
 
 /* every line carries every field so that the trace specification can treat
    lines as records of one shape */
-static struct { long len, cap; int cond, ret, err, mi, fl, ok, rst; } F;
+static struct { long len, cap; int cond, ret, err, mi, fl, ok, rst, rty; } F;
 
 static void emit_begin(const char *op, int e)
 {
     stepno++;
     fprintf(out, "{\"x\":%ld,\"n\":%ld,\"op\":\"%s\",\"e\":%d,\"len\":%ld,\"cap\":%ld,\"cond\":%d,"
-	    "\"ret\":%d,\"err\":%d,\"mi\":%d,\"fl\":%d,\"ok\":%d,\"rst\":%d",
-	    xid, stepno, op, e, F.len, F.cap, F.cond, F.ret, F.err, F.mi, F.fl, F.ok, F.rst);
+	    "\"ret\":%d,\"err\":%d,\"mi\":%d,\"fl\":%d,\"ok\":%d,\"rst\":%d,\"rty\":%d",
+	    xid, stepno, op, e, F.len, F.cap, F.cond, F.ret, F.err, F.mi, F.fl, F.ok, F.rst, F.rty);
     memset(&F, 0, sizeof(F));
 }
 
@@ -421,6 +430,10 @@ static int setup(const char *tpname, const char *mode)
 	nsent[e] = ndeliv[e] = 0;
 	stream_len[e] = stream_rd[e] = 0;
 	ntok[e] = 0;
+	ref_len[e] = 0;
+	nacalls[e] = 0;
+	cap_len[e] = 0;
+	unchk[e] = 0;
     }
     rawpend_len = rawpend_off = 0;
     raw_written = 0;
@@ -433,7 +446,9 @@ static int setup(const char *tpname, const char *mode)
     else if (strcmp(base, "uxf") == 0) {
 	const char *d = getenv("VERIF_RUN_DIR");
 	snprintf(addr, sizeof(addr), "uxf:%s/s%d-%ld", d ? d : "/tmp", getpid(), seq);
-    } else
+    } else if (utls_tls)	/* a plain tls server: the utls client finds no UX socket and falls back to its TLS leg */
+	snprintf(addr, sizeof(addr), "tls:127.0.0.1:0");
+    else
 	snprintf(addr, sizeof(addr), "%s:127.0.0.1:0", base);
 
     struct xcm_attr_map *a = nb_attrs();
@@ -448,6 +463,11 @@ static int setup(const char *tpname, const char *mode)
 	return -1;
     }
     snprintf(saddr, sizeof(saddr), "%s", xcm_local_addr(srv));
+    if (utls_tls) {
+	char tmp[256];
+	snprintf(tmp, sizeof(tmp), "utls:%s", strchr(saddr, ':') + 1);
+	strcpy(saddr, tmp);
+    }
 
     if (raw_mode) {
 	/* endpoint 1 is the library's accepted connection?  No: endpoint 1 is
@@ -568,32 +588,53 @@ static void unplan(int e)
     shim_nonblock_watch(false);
 }
 
-static void do_send(int e, long len, long wc, int werr)
+/* byte streams: how a send refused with EAGAIN is retried.  pol 0: fresh data (another token),
+   1: exactly the refused buffer again, 2: a longer buffer starting with the refused one */
+static void do_send(int e, long len, long wc, int werr, int pol)
 {
     if (ep[e] == NULL)
 	return;
-    ntok[e]++;
+    long tok;
+    int rty = 0;
+    if (is_stream && pol > 0 && ref_len[e] > 0) {
+	tok = ref_tok[e];
+	rty = pol;
+	len = pol == 1 ? ref_len[e] : (len > ref_len[e] ? len : ref_len[e] + 1 + len);
+    } else
+	tok = ++ntok[e];
     long blen = len > MAXMSG ? MAXMSG : len;
     if (is_stream)
 	for (long j = 0; j < blen; j++)
-	    sbuf[j] = mix(e * 11 + (unsigned)xid * 131, (unsigned)ntok[e], j);
+	    sbuf[j] = mix(e * 11 + (unsigned)xid * 131, (unsigned)tok, j);
     else
 	fill_msg(sbuf, e, nsent[e] + 1, blen);
     plan(e, wc, werr, SHIM_UNLIMITED, 0);
     shim_enter(e);
     errno = 0;
-    /* for len > MAXMSG the buffer is over-announced on purpose only up to what we own */
-    int rc = xcm_send(ep[e], sbuf, len > MAXMSG ? MAXMSG : len);
+    int rc = xcm_send(ep[e], sbuf, blen);
     int err = errno;
     shim_leave();
     unplan(e);
     if (is_stream) {
-	if (rc > 0)
+	if (rc > 0) {
+	    if (nacalls[e] < MAXCALLS)
+		acalls[e][nacalls[e]++] = (struct acall){ stream_len[e], rc, cap_tok[e], cap_len[e] };
 	    stream_append(e, sbuf, rc);
+	    cap_len[e] = 0;
+	}
+	if (rc < 0 && err == EAGAIN && blen > 0) {
+	    ref_tok[e] = tok;
+	    ref_len[e] = blen;
+	    if (cap_len[e] == 0) {
+		cap_tok[e] = tok;
+		cap_len[e] = blen;
+	    }
+	} else
+	    ref_len[e] = 0;
     } else if (rc == 0 && nsent[e] < MAXSENT)
 	sent_len[e][nsent[e]++] = (int)blen;
     settle();
-    F.len = blen; F.ret = rc; F.err = rc < 0 ? err : 0;
+    F.len = blen; F.ret = rc; F.err = rc < 0 ? err : 0; F.rty = rty;
     emit_begin("s", e);
     emit_io(e);
     emit_obs();
@@ -625,11 +666,42 @@ static void do_receive(int e, long cap, long rc_credit, int rerr, long wc, int w
 	    ok = 0;
 	else if (is_stream) {
 	    /* the delivered bytes must continue the peer's accepted stream */
-	    if (raw_mode) {
-		mi = 0;
+	    if (raw_mode || unchk[e]) {
+		if (unchk[e])
+		    ok = 3;	/* not judged */
 	    } else if (stream_rd[e] + rc > stream_len[p] ||
-		memcmp(stream[p] + stream_rd[e], rbufg, rc) != 0)
+		memcmp(stream[p] + stream_rd[e], rbufg, rc) != 0) {
+		/* classify: are the unexpected bytes those of a send call that was refused (EAGAIN)?
+		   ok = 2: yes (history class "refused_bytes"), ok = 0: no */
+		long d = 0;
+		while (d < rc && stream_rd[e] + d < stream_len[p] && stream[p][stream_rd[e] + d] == rbufg[d])
+		    d++;
 		ok = 0;
+		long pos = stream_rd[e] + d;	/* absolute stream offset of the first unexpected byte */
+		long ptok = 0, plen = 0, o = 0;
+		if (pos >= stream_len[p]) {	/* beyond everything accepted: a send that is still refused */
+		    ptok = cap_tok[p];
+		    plen = cap_len[p];
+		    o = pos - stream_len[p];
+		} else
+		    for (int c = nacalls[p] - 1; c >= 0; c--)
+			if (acalls[p][c].start <= pos) {
+			    ptok = acalls[p][c].ptok;
+			    plen = acalls[p][c].plen;
+			    o = pos - acalls[p][c].start;
+			    break;
+			}
+		if (plen > 0 && o < plen) {
+		    long n = rc - d < plen - o ? rc - d : plen - o;
+		    long j;
+		    for (j = 0; j < n; j++)
+			if (rbufg[d + j] != mix(p * 11 + (unsigned)xid * 131, (unsigned)ptok, o + j))
+			    break;
+		    if (j == n)
+			ok = 2;
+		}
+		unchk[e] = 1;
+	    }
 	    stream_rd[e] += rc;
 	    mi = 0;
 	} else {
@@ -870,7 +942,7 @@ int main(int argc, char **argv)
 	if (n < 1)
 	    continue;
 	switch (cmd[0]) {
-	case 's': do_send(v[0], v[1], n > 3 ? v[2] : -1, n > 4 ? v[3] : 0); break;
+	case 's': do_send(v[0], v[1], n > 3 ? v[2] : -1, n > 4 ? v[3] : 0, n > 5 ? v[4] : 0); break;
 	case 'r': do_receive(v[0], v[1], n > 3 ? v[2] : -1, n > 4 ? v[3] : 0, n > 5 ? v[4] : -1, n > 6 ? v[5] : 0); break;
 	case 'f': do_finish(v[0], n > 2 ? v[1] : -1, n > 3 ? v[2] : 0); break;
 	case 'a': do_await(v[0], v[1]); break;
